@@ -46,3 +46,6 @@ for i in ids:
     finally:
         subprocess.run(["git", "-C", "/repo", "checkout", "--", "."], check=True)
     json.dump(meta, open(os.path.join(d, "meta.json"), "w"), indent=1)
+
+# leave lean/Generated in the state of the clean tree
+subprocess.run(["python3", "-c", "import sys; sys.path.insert(0, '%s/tools'); from vlib import translate, implside; hd = implside.ensure(['plain']); translate.run(hd['plain'])" % V], cwd=V)
